@@ -69,6 +69,8 @@ def spec_outcome(nr, dr, cutoff):
 
 
 def check(run):
+    import genlib
+    genlib.validate_create_tabulation(run, n=run.n(60, 600))
     run.rule = ("(1) all 6x4x4 presence/sign patterns of (nr, dr, cutoff) for both grids; (2) commensurate decimal pairs: steps %d values 1e-4..0.5 as decimal strings x k "
                 "(quick: random k in 1..20000 + all k <= 40; thorough: every k <= 20000) for both grids, implementation vs Lean Float model on the same doubles (exact integer "
                 "comparison) and vs k+1; (3) defaults; (4) row counts of written tables for all text targets" % len(STEPS))
